@@ -294,6 +294,10 @@ func genNew(r *vlib.R) (size int, mn, mx int64, valid bool) {
 }
 
 func gen(r *vlib.R, n int, tier string, emit func(string)) {
+	// vlib.NewR(seed) starts consecutive seeds one step apart on the SAME
+	// splitmix64 sequence; re-key from a scrambled output so that seeds 1..5
+	// are unrelated streams (everything still derives from VERIF_SEED).
+	r = vlib.NewR(r.U64() ^ 0xc13c13c13c13c13)
 	genStateless(r, emit, &n, 40)
 	for n > 0 {
 		size, mn, mx, valid := genNew(r)
